@@ -141,6 +141,21 @@ func Open(o Options) (*Session, error) {
 		s.tcp.SetReadBuffer(o.ServerRcvBuf)
 	}
 	if o.NoHandshake {
+		// The state begins once the relay's ClientHello has arrived (its TCP connect, which a
+		// cancelled dial context can still abort, is then behind it). The server takes the
+		// octets and says nothing.
+		s.tcp.SetReadDeadline(time.Now().Add(o.Bound))
+		hello := make([]byte, 1)
+		_, err := s.tcp.Read(hello)
+		s.tcp.SetReadDeadline(time.Time{})
+		if err != nil {
+			gaveUp, perr := s.ProxyReturned(o.Bound / 6)
+			s.Teardown(o.Bound)
+			if gaveUp {
+				return nil, fmt.Errorf("%w (no ClientHello: %v): %v", ErrProxyReturned, err, perr)
+			}
+			return nil, fmt.Errorf("the relay connected but sent no ClientHello within %v: %v", o.Bound, err)
+		}
 		s.Client.Start()
 		return s, nil
 	}
